@@ -232,12 +232,45 @@ def subsequence_filter(prog, b, source_param, pred_ok):
         n = mir.cname(callee_name(ct))
         m = n.split('::')[-1]
         owner = n.split('::')[0]
-        if (m in opw.VEC_REMOVERS or m in opw.VEC_REORDER) and owner in ('Vec', 'slice') or m.startswith('par_') or \
+        if (m in (opw.VEC_REMOVERS - {'retain'}) or m in opw.VEC_REORDER) and owner in ('Vec', 'slice') or m.startswith('par_') or \
                 (m in (opw.ITER_DROPPERS - {'filter'}) and owner in ('Iterator', 'ParallelIterator')):
             return False, 'order-changing / element-dropping operation `%s` at %s' % (n, b.where(ci))
     pushes = [(bi, t) for bi, t in b.calls() if mir.cname(callee_name(t)) == 'Vec::push']
     filters = [(bi, t) for bi, t in b.calls() if mir.cname(callee_name(t)) == 'Iterator::filter']
-    if len(pushes) == 1 and not filters:
+    retains = [(bi, t) for bi, t in b.calls() if mir.cname(callee_name(t)) == 'Vec::retain']
+    if len(retains) == 1 and not pushes and not filters:
+        # in place: `v.retain(|x| P(x))` on the input vector itself, which is then returned
+        bi, t = retains[0]
+        recv = strip(b.op_term(t['args'][0], (bi, None)))
+        if not is_param(recv, source_param):
+            return False, 'retain does not run on the input vector: ' + mir.show(recv, maxdepth=3)
+        cb, caps = closure_of_term(prog, b.op_term(t['args'][1], (bi, None)))
+        if cb is None:
+            return False, 'retain predicate is not a closure'
+        rv = [strip(x[0]) for x in cb.return_values()]
+        if len(rv) != 1:
+            return False, 'retain closure has several return values'
+        r = rv[0]
+        neg = False
+        while isinstance(r, tuple) and r[0] == 'un' and r[1] == 'Not':
+            neg = not neg
+            r = strip(r[2])
+        if not (isinstance(r, tuple) and r[0] == 'call'):
+            return False, 'retain closure does not return the predicate'
+        pol = pred_ok(cb, r, ('param', 2, cb.name_of(2)))
+        if pol is None:
+            return False, 'retain closure does not apply the expected predicate to its element: ' + mir.show(r, maxdepth=4)
+        if (not neg) != pol:
+            return False, 'retain keeps the elements on the wrong edge of the predicate'
+        others = [mir.cname(callee_name(ct)) for ci, ct in b.calls() if ci != bi and ct['args'] and is_param(strip(b.op_term(ct['args'][0], (ci, None))), source_param)
+                  and mir.cname(callee_name(ct)).split('::')[0] in ('Vec', 'slice')]
+        if others:
+            return False, 'the input vector is also changed by %s' % others
+        rvs = [strip(x[0]) for x in b.return_values()]
+        if not (len(rvs) == 1 and is_param(rvs[0], source_param)):
+            return False, 'the retained vector is not what is returned'
+        return True, 'retain on the input vector'
+    if len(pushes) == 1 and not filters and not retains:
         bi, t = pushes[0]
         elem = strip(b.op_term(t['args'][1], (bi, None)))
         e0 = elem
@@ -263,7 +296,7 @@ def subsequence_filter(prog, b, source_param, pred_ok):
         if not all(r == dest_vec for r in rv):
             return False, 'returned value is not the vector receiving the pushes'
         return True, 'loop with guarded push'
-    if len(filters) == 1 and not pushes:
+    if len(filters) == 1 and not pushes and not retains:
         bi, t = filters[0]
         base, ad = iter_chain(b.op_term(t['args'][0], (bi, None)))
         if not is_param(base, source_param) or any(a not in ('into_iter', 'iter') for a in ad):
@@ -298,7 +331,7 @@ def subsequence_filter(prog, b, source_param, pred_ok):
         if not okr:
             return False, 'result is not collect() of the filtered sequence'
         return True, 'iterator filter + collect'
-    return False, 'neither a single guarded push nor a single iterator filter (pushes=%d, filters=%d)' % (len(pushes), len(filters))
+    return False, 'neither a single guarded push, a single iterator filter nor a single retain (pushes=%d, filters=%d, retains=%d)' % (len(pushes), len(filters), len(retains))
 
 
 def differs_guard(g, truth):
